@@ -324,9 +324,10 @@ Proof.
   - cbn [step_ok]. unfold tokens_justified.
     destruct (poll_tokens_inv _ _ _ _ _ _ _ _ _ _ _ Hp)
       as [d [c [Hfd [Hfc [Hcl' [Hdone [Hden [-> [Ht Hpr]]]]]]]]].
-    unfold tokens_for in Ht. inversion Ht; subst t. cbn [t_sub t_client t_scopes t_granted t_id t_at_iss].
+    unfold tokens_for in Ht. inversion Ht; subst t. cbn [t_sub t_client t_scopes t_granted t_id t_at_iss t_refresh].
     rewrite Hfd, Hfc, Hcl', !String.eqb_refl, Hdone, Hden, !same_scopes_refl, Hpr.
     unfold expected_issuer. cbn [andb negb].
+    destruct (string_in "offline_access" (d_scopes d)); cbn [andb negb orb]; rewrite ?orb_true_r;
     destruct (string_in "openid" (d_scopes d)); destruct (c_jwt c); now rewrite ?String.eqb_refl.
   - cbn [step_ok]. unfold refusal_ok.
     destruct (find_client cl (claimed cr)) as [c|] eqn:Hfc; [|reflexivity].
